@@ -273,3 +273,6 @@ Lemma decode_flag_wrong_type_key v rest : (forall x, v <> JStr x) -> decode_flag
 Proof. intros H. unfold decode_flag, rd_object. cbn [fold_props]. destruct v; try reflexivity. exfalso. eapply H. reflexivity. Qed.
 Lemma decode_flag_not_object v : (forall ps, v <> JObj ps) -> decode_flag v = None.
 Proof. intros H. destruct v; try reflexivity. exfalso. eapply H. reflexivity. Qed.
+
+Lemma schema_rejects_missing_list : schema_flag (JObj [(s "key", JStr [])]) = false.
+Proof. reflexivity. Qed.
